@@ -404,3 +404,153 @@ pub(crate) async fn do_edit(n: usize, a: usize, w: &Rc<RefCell<World>>, replica:
     }
     wb.log(|| format!("n{n} a{a} edit {} at={at} {} mutators", model::short(&uuid), muts.len()));
 }
+
+
+/// The older convenience methods of `Replica` (deprecated but public): each is one commit whose
+/// effect on the store is compared with what its documentation says.
+#[allow(deprecated)]
+pub(crate) async fn do_legacy(n: usize, a: usize, w: &Rc<RefCell<World>>, replica: &mut Replica<SimStorage>, kind: u8, t: u8, arg: u8, at: i64) {
+    let f0 = fired_total();
+    let uuid = task_uuid(t);
+    let now = EPOCH0 + at;
+    interpose::set_now_ns(now * 1_000_000_000 + 5);
+    let before = simstorage::read_store(&w.borrow().stores[n]);
+    let mut errs: Vec<String> = Vec::new();
+    let mut what = String::new();
+    match kind % 5 {
+        0 => {
+            let (st, sname) = status_of(arg);
+            let desc = format!("legacy task {n}.{a}");
+            what = format!("new_task({sname})");
+            match replica.new_task(st, desc.clone()).await {
+                Ok(task) => {
+                    let after = simstorage::read_store(&w.borrow().stores[n]);
+                    let u = task.get_uuid();
+                    let mut exp = Props::new();
+                    exp.insert("modified".into(), now.to_string());
+                    exp.insert("description".into(), desc);
+                    exp.insert("status".into(), sname.to_string());
+                    exp.insert("entry".into(), now.to_string());
+                    if before.tasks.contains_key(&u) {
+                        errs.push(format!("new_task reused the id of an existing task {u}"));
+                    }
+                    if after.tasks.get(&u) != Some(&exp) {
+                        errs.push(format!("new_task stored {:?}, documented: modified, description, status and entry = {:?}", after.tasks.get(&u), exp));
+                    }
+                    let in_ws = after.working_set.iter().flatten().any(|x| *x == u);
+                    if in_ws != (sname == "pending" || sname == "recurring") {
+                        errs.push(format!("new_task({sname}): task in working set = {in_ws}"));
+                    }
+                    let mut others = after.tasks.clone();
+                    others.remove(&u);
+                    if others != before.tasks {
+                        errs.push("new_task changed other tasks".to_string());
+                    }
+                }
+                Err(e) => {
+                    if fired_total() == f0 {
+                        errs.push(format!("new_task failed: {e}"));
+                    }
+                }
+            }
+        }
+        1 => {
+            let prop = ["description", "project", "status", "p0"][arg as usize % 4];
+            let val = if arg % 3 == 0 { None } else { Some(format!("legacy{n}.{a}")) };
+            what = format!("update_task({prop}, {val:?})");
+            let r = replica.update_task(uuid, prop, val.clone()).await;
+            let after = simstorage::read_store(&w.borrow().stores[n]);
+            match (before.tasks.get(&uuid), r) {
+                (None, Ok(_)) => errs.push("update_task of a task that does not exist succeeded".into()),
+                (None, Err(_)) => {
+                    if *after != *before {
+                        errs.push("a refused update_task changed the replica".into());
+                    }
+                }
+                (Some(old), Ok(tm)) => {
+                    let mut exp = old.clone();
+                    match &val {
+                        Some(v) => {
+                            exp.insert(prop.to_string(), v.clone());
+                        }
+                        None => {
+                            exp.remove(prop);
+                        }
+                    }
+                    let got: Props = tm.into_iter().collect();
+                    if got != exp || after.tasks.get(&uuid) != Some(&exp) {
+                        errs.push(format!("update_task: returned {:?}, stored {:?}, expected {:?}", got, after.tasks.get(&uuid), exp));
+                    }
+                }
+                (Some(_), Err(e)) => {
+                    if fired_total() == f0 {
+                        errs.push(format!("update_task failed: {e}"));
+                    }
+                }
+            }
+        }
+        2 => {
+            what = "delete_task".into();
+            let r = replica.delete_task(uuid).await;
+            let after = simstorage::read_store(&w.borrow().stores[n]);
+            match (before.tasks.contains_key(&uuid), r) {
+                (false, Ok(())) => errs.push("delete_task of a task that does not exist succeeded".into()),
+                (false, Err(_)) => {
+                    if *after != *before {
+                        errs.push("a refused delete_task changed the replica".into());
+                    }
+                }
+                (true, Ok(())) => {
+                    let mut exp = before.tasks.clone();
+                    exp.remove(&uuid);
+                    if after.tasks != exp {
+                        errs.push("delete_task did not remove exactly that task".into());
+                    }
+                }
+                (true, Err(e)) => {
+                    if fired_total() == f0 {
+                        errs.push(format!("delete_task failed: {e}"));
+                    }
+                }
+            }
+        }
+        3 => {
+            what = "import_task_with_uuid".into();
+            let r = replica.import_task_with_uuid(uuid).await;
+            let after = simstorage::read_store(&w.borrow().stores[n]);
+            if r.is_ok() {
+                let mut exp = before.tasks.clone();
+                exp.entry(uuid).or_default();
+                if after.tasks != exp {
+                    errs.push(format!("import_task_with_uuid: tasks {:?}, expected {:?}", after.tasks, exp));
+                }
+            } else if fired_total() == f0 {
+                errs.push("import_task_with_uuid failed".into());
+            }
+        }
+        _ => {
+            what = format!("add_undo_point({})", arg % 2 == 0);
+            let r = replica.add_undo_point(arg % 2 == 0).await;
+            let after = simstorage::read_store(&w.borrow().stores[n]);
+            if r.is_ok() {
+                if after.tasks != before.tasks {
+                    errs.push("add_undo_point changed tasks".into());
+                }
+                let added = after.unsynced.len().saturating_sub(before.unsynced.len());
+                if added > 1 || after.unsynced[before.unsynced.len().min(after.unsynced.len())..].iter().any(|o| !o.is_undo_point()) {
+                    errs.push("add_undo_point recorded something other than one undo point".into());
+                }
+                if arg % 2 == 0 && added != 1 {
+                    errs.push("add_undo_point(force = true) did not add an undo point".into());
+                }
+            }
+        }
+    }
+    interpose::set_now_ns(w.borrow().now_ns);
+    let mut wb = w.borrow_mut();
+    for e in errs {
+        wb.violation("task.legacy", "api", format!("node {n} action {a} {what}: {e}"));
+    }
+    wb.probe("edit.legacy_calls");
+    wb.log(|| format!("n{n} a{a} legacy {what}"));
+}
